@@ -36,7 +36,8 @@ BUDGET = {"quick": (300, 85), "thorough": (700, 800)}
 
 THEORIES = [("stR", False, False, False), ("stR", False, True, False), ("stR", True, False, False),
             ("stR", False, False, True), ("stR", True, True, False), ("stF", False, False, False),
-            ("stF", True, False, False), ("cRF", False, False, False), ("cRF", False, False, True)]
+            ("stF", True, False, False), ("cRF", False, False, False), ("cRF", False, False, True),
+            ("cRF", True, False, False)]
 
 
 @st.composite
@@ -69,7 +70,8 @@ def _case(draw, big):
         st.builds(lambda w, u: {"op": "look", "what": w, "units": u},
                   st.sampled_from(["rwa_data", "rwa_skeleton", "data"]), st.sampled_from(["1/cm", "eV", "THz"])),
         st.builds(lambda d, r: {"op": "heom", "depth": d, "rho": r}, st.integers(1, 2), st.integers(0, 1)),
-        st.builds(lambda s, d: {"op": "eso", "slot": s, "dense": d}, st.integers(0, 1), st.sampled_from([1, 2])),
+        st.builds(lambda s, d, pd: {"op": "eso", "slot": s, "dense": d, "pd": pd}, st.integers(0, 1), st.sampled_from([1, 2]),
+                  st.sampled_from([None, None, "Lorentzian"])),
         st.just({"op": "elf"}),
         # two Lindblad forms built from one shared system-bath interaction object, used inside or outside the
         # eigenbasis of the Hamiltonian: identical inputs, identical dynamics
@@ -108,9 +110,17 @@ def grid(tier):
     seqs = []
     for pd in (None, "Lorentzian", "Gaussian"):
         # one propagator object: default, refined through the setter, refined through the argument, refused, default
+        seqs.append([T0, rdm("set", 5, pd), rdm("arg", 2, pd), rdm("default", 1, pd)])
         seqs.append([T0, rdm("default", 1, pd), rdm("set", 5, pd), rdm("default", 1, pd), rdm("set", 1, pd),
                      rdm("arg", 2, pd), rdm("default", 1, pd),
                      {"op": "rdm_refused", "slot": 0, "rho": 1, "nref": 5}, rdm("default", 1, pd), rdm("set", 2, pd)])
+    E0 = {"op": "eso", "slot": 0, "dense": 1, "pd": None}
+    E1 = {"op": "eso", "slot": 0, "dense": 1, "pd": "Lorentzian"}
+    seqs.append([T0, E0, E1, E0, dict(E1, dense=2), E0])
+    for th in range(len(THEORIES)):
+        # every kind of tensor built twice with another one in between
+        seqs.append([{"op": "tensor", "theory": th, "slot": 0}, {"op": "tensor", "theory": (th + 3) % len(THEORIES), "slot": 1},
+                     {"op": "tensor", "theory": th, "slot": 0}])
     kinds = [rdm("default", 1), rdm("arg", 2, "Lorentzian"), {"op": "sv", "psi": 0, "L": 4, "hfce": False},
              {"op": "rdm_shifted", "rho": 1}, {"op": "pop", "p": 0}, {"op": "popmat", "corr": 0},
              {"op": "rdm_refused", "slot": 0, "rho": 0, "nref": 2}, {"op": "look", "what": "rwa_data", "units": "1/cm"},
@@ -167,6 +177,8 @@ class Pool(object):
         self.lsbi = SystemBathInteraction([Operator(data=K) for K in ks], rates=(0.02, 0.01))
         self.lforms = {}
         self.hier = {}             # depth -> (hierarchy, propagator)
+        self.esos = {}             # (slot, tensor key) -> evolution superoperator object
+        self.eso_dense = {}        # ... and the dense step it was last given
 
     def fingerprint(self):
         qr = self.qr
@@ -431,10 +443,33 @@ def check_case(case, ctx):
                     return None
                 RT, hret, tkey = pool.slots[slot]
                 t2 = qr.TimeAxis(0.0, 4, 4.0)
-                eso = EvolutionSuperOperator(t2, hret, RT)
-                eso.set_dense_dt(op["dense"] * 2)
+
+                def dephasing():
+                    if not op.get("pd"):
+                        return None
+                    from quantarhei.qm import PureDephasing
+                    return PureDephasing(drates=0.01 * (numpy.ones((pool.n + 1, pool.n + 1)) - numpy.eye(pool.n + 1)),
+                                         dtype=op["pd"])
+                # one superoperator object per tensor slot, calculated again and again with the settings of the call
+                ekey = (slot, tkey)
+                used = ekey in pool.esos
+                if not used:
+                    pool.esos[ekey] = EvolutionSuperOperator(t2, hret, RT)
+                eso = pool.esos[ekey]
+                eso.set_PureDephasing(dephasing())
+                if pool.eso_dense.get(ekey) != op["dense"]:
+                    # (the dense step is set only when it changes)
+                    eso.set_dense_dt(op["dense"] * 2)
+                    pool.eso_dense[ekey] = op["dense"]
                 eso.calculate()
-                key = ("eso", tkey, op["dense"])
+                key = ("eso", tkey, op["dense"], op.get("pd"))
+                where = "eso" + ("/pdeph" if op.get("pd") else "")
+                if used:
+                    fe = EvolutionSuperOperator(t2, hret, RT)
+                    fe.set_PureDephasing(dephasing())
+                    fe.set_dense_dt(op["dense"] * 2)
+                    fe.calculate()
+                    fresh = numpy.array(fe.data)
                 return numpy.array(eso.data)
             if kind == "elf":
                 return _elf(qr, ctx)
